@@ -316,7 +316,7 @@ def _execute_history(case: dict, sim: core.Sim, scratch: str, rec: hist.Rec) -> 
             rec.proc({"op": "alloc", "n": len(st["dates"]), "per_manager": st["per_manager"]}, None, o)
             if o.status != "ok":
                 exc = o.exc or {}
-                if exc.get("type") == "RuntimeError" and "Ran out" in exc.get("msg", ""):
+                if _is_out_of_ids(exc):
                     # legitimate only if that date is really exhausted (seek put it at the end)
                     rec.probe("exhaustion-reached-in-history")
                     nm = _read_next_ids(sim)
@@ -348,7 +348,7 @@ def _execute_history(case: dict, sim: core.Sim, scratch: str, rec: hist.Rec) -> 
             rec.proc(op, None, o)
             if o.status != "ok":
                 exc = o.exc or {}
-                if "Ran out" in exc.get("msg", ""):
+                if _is_out_of_ids(exc):
                     rec.probe("exhaustion-reached-in-history")
                     os.unlink(os.path.join(sim.zdir, st["name"]))
                     continue
@@ -366,6 +366,13 @@ def _execute_history(case: dict, sim: core.Sim, scratch: str, rec: hist.Rec) -> 
     rec.probe("allocator-and-index-commands-mixed", int(mixed["alloc"] and mixed["index"]))
     rec.states.append(json.dumps(_read_next_ids(sim), sort_keys=True))
     return rec.result()
+
+
+def _is_out_of_ids(exc: dict) -> bool:
+    """The explicit out-of-IDs error, recognised structurally (a RuntimeError raised
+    by the ZID manager module itself), never by its wording."""
+    where = exc.get("where") or []
+    return exc.get("type") == "RuntimeError" and bool(where) and where[-1][0].endswith("_zid_manager.py")
 
 
 def _pos(suffix: str) -> Optional[int]:
